@@ -130,6 +130,10 @@ fn gen_case<B: Backend>(c: &GenCase, acc: &mut Acc) -> R {
     let sk: SecretKeyOf<B> = if random { SecretKeyOf::<B>::random().map_err(|e| Fail::new(format!("C08/{name}/random-secret"), format!("{e}")))? } else { secret_key::<B>(&c.key) };
     let pk = sk.public_key();
     serial_checks::<B, Local>(&lk)?;
+    // From<[u8; 32]> is the same key as parsing the bytes
+    let raw32: [u8; 32] = key_bytes(&lk).try_into().map_err(|_| Fail::new(format!("C08/{name}/Local/length"), "local key is not 32 bytes"))?;
+    let via_from = catch(|| LocalKeyOf::<B>::from(raw32)).map_err(|loc| Fail::new(format!("C08/{name}/Local/from-array-panicked"), loc))?;
+    ensure!(key_bytes(&via_from) == raw32, format!("C08/{name}/Local/from-array-differs"), "LocalKey::from([u8; 32]) gives other bytes");
     serial_checks::<B, Secret>(&sk)?;
     serial_checks::<B, Public>(&pk)?;
     // Display of public keys is the PASERK text
